@@ -80,3 +80,27 @@ From RS Require Import LoadStmts LoadFacts EndToEndStmts CircStmts FlowFacts3.
 Theorem C14_covering_circulation_exists : stmt_circulation_feasible_loaded.
 Proof. exact circulation_feasible_loaded. Qed.
 Print Assumptions C14_covering_circulation_exists.
+
+(** OPTIMALITY AMONG ALL TOURS (the converse direction, tours -> flow): every admissible set of tours — start depot,
+    activities of the type or allotted slots, end depot; consecutive nodes connectable (listed predecessors = exactly the
+    connectable nodes of the type: predecessors_exact, C17); every trip visited between min(required, limit) and limit
+    times, every allotted slot exactly its allotted number of times; depot capacities; as many tours ending in a depot as
+    starting there; no direct depot-to-depot tour repeated more often than an arc carries — IS the decomposition of a feasible
+    flow of the same cost. Hence a flow passing the certificate check decodes into tours whose cost (vehicles times the
+    spawning cost, plus operating costs) is minimal among ALL such sets of tours, the minimum is attained by the decoded
+    tours themselves, and a competitor with fewer vehicles would have to pay more than one spawning cost in operating cost.
+    Without the restriction on direct tours the tours->flow statement is refuted on a loaded network (arcs from a start
+    depot to an end depot are capped at the arc bound, depot capacities are not): tours_give_flow_refuted. *)
+From RS Require Import OptStmts OptFacts OptFacts2.
+Theorem C14_admissible_tours_are_flows : forall nw ty slots, stmt_tours_give_flow' nw ty slots.
+Proof. exact tours_give_flow'. Qed.
+Print Assumptions C14_admissible_tours_are_flows.
+Theorem C14_start_solution_optimal_among_all_tours : forall nw ty slots, stmt_certified_flow_gives_optimal_tours' nw ty slots.
+Proof. exact certified_flow_gives_optimal_tours'. Qed.
+Print Assumptions C14_start_solution_optimal_among_all_tours.
+Theorem C14_start_solution_minimises_vehicles : forall nw ty slots, stmt_optimal_tours_minimise_vehicles' nw ty slots.
+Proof. exact optimal_tours_minimise_vehicles'. Qed.
+Print Assumptions C14_start_solution_minimises_vehicles.
+Theorem C14_unrestricted_tours_to_flow_refuted : ~ (forall nw ty slots, stmt_tours_give_flow nw ty slots).
+Proof. exact tours_give_flow_refuted. Qed.
+Print Assumptions C14_unrestricted_tours_to_flow_refuted.
